@@ -70,6 +70,15 @@ N = [
     ("atomic-report-write", ["C17", "C19", "C12"],
      [(VIS, "    with open(output_path, \"w\", encoding=\"utf-8\") as f:\n        f.write(html_content)",
        "    tmp_path = str(output_path) + \".part\"\n    with open(tmp_path, \"w\", encoding=\"utf-8\") as f:\n        f.write(html_content)\n    os.replace(tmp_path, output_path)")]),
+    ("cli-extra-progress-line", ["C04", "C08", "C09", "C18", "C19"],
+     [(MAIN, "            with open(output_path, \"w\", encoding=\"utf-8\") as f:\n                f.write(tinycss2.serialize(rules))",
+       "            with open(output_path, \"w\", encoding=\"utf-8\") as f:\n                f.write(tinycss2.serialize(rules))\n            click.echo(f\"  wrote {output_path}\")")]),
+    ("debug-logging-in-optimiser", ["C01", "C15", "C17"],
+     [(OPT, "def check_and_fix_contrast(\n    text,\n    bg,\n    large: bool = False,\n    mode: int = 1,\n    premium: bool = False,\n):",
+       "import logging\n\n_log = logging.getLogger(__name__)\n\n\ndef check_and_fix_contrast(\n    text,\n    bg,\n    large: bool = False,\n    mode: int = 1,\n    premium: bool = False,\n):\n"
+       "    _log.debug(\"check_and_fix_contrast(%r, %r, large=%r, mode=%r, premium=%r)\", text, bg, large, mode, premium)")]),
+    ("lock-around-bulk", ["C12", "C15"],
+     [("src/cm_colors/core/cm_colors.py", "def make_readable_bulk(", "import threading as _threading\n\n_BULK_LOCK = _threading.RLock()\n\n\ndef make_readable_bulk(")]),
     ("hue-via-math-degrees", ["C03", "C04", "C10", "C11"],
      [(CONV, "    hue = math.atan2(b, a) * 180 / math.pi\n    return hue + 360 if hue < 0 else hue", "    hue = math.degrees(math.atan2(b, a))\n    return hue + 360.0 if hue < 0 else hue")]),
 ]
